@@ -701,8 +701,8 @@ fn run_etc_alpha(t: &mut Tally, hashes: &mut Vec<Option<u64>>) {
     let colours = [
         rp::etc1_compose(&Etc1Fields { colour: [(8, 8); 3], ..Default::default() }),
         rp::etc1_compose(&Etc1Fields { diff: true, flip: true, table1: 5, table2: 2, colour: [(10, 3), (31, 0), (0, 2)], msb: 0xA5A5, lsb: 0x0FF0 }),
-        rp::etc1_compose(&Etc1Fields { flip: true, table1: 7, table2: 0, colour: [(15, 0), (0, 15), (7, 8)], msb: 0xFFFF, lsb: 0x3C3C }),
-        rp::etc1_compose(&Etc1Fields { diff: true, table1: 4, table2: 6, colour: [(0, 0), (16, 1), (28, 3)], msb: 0x0001, lsb: 0x8000 }),
+        rp::etc1_compose(&Etc1Fields { diff: false, flip: true, table1: 7, table2: 0, colour: [(15, 0), (0, 15), (7, 8)], msb: 0xFFFF, lsb: 0x3C3C }),
+        rp::etc1_compose(&Etc1Fields { diff: true, flip: false, table1: 4, table2: 6, colour: [(0, 0), (16, 1), (28, 3)], msb: 0x0001, lsb: 0x8000 }),
     ];
     t.sample(json!({"family": "etc-alpha", "patterns": patterns.len(), "colour_words": colours.iter().map(|c| format!("{:016x}", c)).collect::<Vec<_>>()}));
     for pi in 0..patterns.len() {
@@ -901,6 +901,9 @@ fn explore(ctx: &Ctx) -> Outcome {
 }
 
 fn replay(ctx: &Ctx, case: &Value) -> Vec<Violation> {
+    // `--replay` reaches this function without the driver having installed the hook that
+    // records panic locations
+    util::install_quiet_panic_hook();
     let fam = case["family"].as_str().unwrap_or("").to_string();
     let chunk = case["chunk"].as_u64().unwrap_or(0);
     let mut t = Tally::new();
